@@ -102,7 +102,7 @@ fn main() {
         "c13-status" => c13::run_status_exhaustive(),
         "c13-live" => c13::run_live(seed, clients, 5_000 * scale),
         "c14-inproc" => {
-            let (cases, mutated) = if quick { (4_000, 2) } else { (400_000, 100) };
+            let (cases, mutated) = if quick { (4_000, 2) } else { (250_000, 64) };
             sharded(n, move |s| c14::run_inproc(seed, s, cases, mutated))
         }
         "c14-live" => c14::run_live(seed, clients, 5_000 * scale),
